@@ -2,6 +2,7 @@ import Jrpc.Oracle.Util
 import Jrpc.Oracle.C14
 import Jrpc.Oracle.C17
 import Jrpc.Oracle.C12
+import Jrpc.Oracle.C02
 /-! The model oracle: one line in, one line out. First token selects the sub-command. -/
 open Jrpc.Oracle
 
@@ -12,6 +13,8 @@ def dispatch (line : String) : String :=
   | "c17n" :: r => C17.handleNames r
   | "c12" :: r => C12.handle r
   | "c11s" :: r => C12.handleSend r
+  | "c02" :: r => C02.handle r
+  | "c13p" :: r => C02.handleParse r
   | _ => "bad-op"
 
 partial def loop (h : IO.FS.Stream) (out : IO.FS.Stream) : IO Unit := do
